@@ -19,10 +19,10 @@ import (
 func init() { Register("C10", "model_checking", C10) }
 
 // ---- projection of an accepted project into the tagged long-form document the rules of Consistency.tla read
-func tS(s string) map[string]interface{}   { return map[string]interface{}{"t": "s", "v": s} }
-func tB(b bool) map[string]interface{}     { return map[string]interface{}{"t": "b", "v": b} }
-func tI(i int64) map[string]interface{}    { return map[string]interface{}{"t": "i", "v": i} }
-func tN() map[string]interface{}           { return map[string]interface{}{"t": "n"} }
+func tS(s string) map[string]interface{} { return map[string]interface{}{"t": "s", "v": s} }
+func tB(b bool) map[string]interface{}   { return map[string]interface{}{"t": "b", "v": b} }
+func tI(i int64) map[string]interface{}  { return map[string]interface{}{"t": "i", "v": i} }
+func tN() map[string]interface{}         { return map[string]interface{}{"t": "n"} }
 func tM(m map[string]interface{}) map[string]interface{} {
 	return map[string]interface{}{"t": "m", "v": m}
 }
@@ -135,7 +135,9 @@ func consDoc(p *types.Project) map[string]interface{} {
 			doc[kind] = tM(m)
 		}
 	}
-	res("networks", p.NetworkNames(), func(n string) (bool, map[string]interface{}) { return bool(p.Networks[n].External), map[string]interface{}{} })
+	res("networks", p.NetworkNames(), func(n string) (bool, map[string]interface{}) {
+		return bool(p.Networks[n].External), map[string]interface{}{}
+	})
 	res("volumes", p.VolumeNames(), func(n string) (bool, map[string]interface{}) {
 		v := p.Volumes[n]
 		x := map[string]interface{}{}
